@@ -125,7 +125,7 @@ func (s *cscen) pickKey(tag string, ok func(node, lane int) bool) (string, int, 
 
 const clusterNodes = 3
 
-func newCScen(run *harness.Run, d *Driver, key string, holdBeforeExec bool) (*cscen, string) {
+func newCScen(run *harness.Run, d *Driver, key string, idx int, holdBeforeExec bool) (*cscen, string) {
 	s := &cscen{run: run, d: d, key: key, r: run.Rand(key), committed: map[string]int{}, firstAt: map[string]int64{},
 		notify: make(chan struct{}, 1), blocked: make(chan struct{}), release: make(chan struct{}), watch: 30 * time.Second}
 	s.cl = fakeredis.NewCluster(clusterNodes, fakeredis.Options{Permissive: true, LogOnly: func(cmd string, args [][]byte) bool {
@@ -134,7 +134,7 @@ func newCScen(run *harness.Run, d *Driver, key string, holdBeforeExec bool) (*cs
 	r := s.r
 	s.lanes = 2 + r.Intn(3)
 	s.holdNode = r.Intn(clusterNodes)
-	s.holdCmd = []string{"MULTI", "MULTI", "EXEC"}[r.Intn(3)]
+	s.holdCmd = []string{"MULTI", "MULTI", "EXEC"}[idx%3] // held before the transaction runs / after EXEC, before its reply
 	if holdBeforeExec {
 		s.holdCmd = "MULTI"
 	}
@@ -476,8 +476,8 @@ func (s *cscen) judgeFinal(what string) {
 }
 
 // outOfOrderStop is schedule (1).
-func outOfOrderStop(run *harness.Run, d *Driver, key string) {
-	s, why := newCScen(run, d, key, false)
+func outOfOrderStop(run *harness.Run, d *Driver, key string, idx int) {
+	s, why := newCScen(run, d, key, idx, false)
 	if s == nil {
 		run.Inconclusive("%s: %s", key, why)
 		return
@@ -526,12 +526,17 @@ func outOfOrderStop(run *harness.Run, d *Driver, key string) {
 	run.Distinct(fmt.Sprintf("%s|out-of-order-stop|hold=%s|lanes=%d|flush-before=%v|flush-during=%v|held-committed=%v", clusterCtx, s.holdCmd, s.lanes, preFlush, flushed, heldCommitted))
 	s.judgeFrontiers(0)
 
-	// two fresh instances without traffic, the second replays the rest
+	// fresh instances (one; every third scenario two in a row without traffic — a start on a cluster
+	// scans all 16384 slot tags, which dominates the cost of a scenario); the last replays the rest
 	ids := SourceRunIDs()
 	floor := int64(-1)
 	var last *syncer.RedisOutput
 	var R int64
-	for i := 1; i <= 2; i++ {
+	starts := 1
+	if s.r.Intn(3) == 0 {
+		starts = 2
+	}
+	for i := 1; i <= starts; i++ {
 		o, err := s.open()
 		if err != nil {
 			run.Inconclusive("%s: restart %d: start-up bookkeeping: %v", key, i, err)
@@ -558,19 +563,19 @@ func outOfOrderStop(run *harness.Run, d *Driver, key string) {
 		return
 	}
 	s.judgeFrontiers(nf)
-	s.judgeFinal("out-of-order stop, two restarts")
+	s.judgeFinal("out-of-order stop, fresh start")
 }
 
 // inProcessRestart is schedule (2).
-func inProcessRestart(run *harness.Run, d *Driver, key string) {
-	s, why := newCScen(run, d, key, true) // the failing unit is held before its transaction is executed
+func inProcessRestart(run *harness.Run, d *Driver, key string, idx int) {
+	s, why := newCScen(run, d, key, idx, true) // the failing unit is held before its transaction is executed
 	if s == nil {
 		run.Inconclusive("%s: %s", key, why)
 		return
 	}
 	defer s.cl.Close()
 	defer s.releaseHold()
-	s.failDrop = s.r.Intn(3) == 0
+	s.failDrop = idx%3 == 2
 	s.desc = "unit fails after later units were acknowledged, restart on the same output; " + s.desc + fmt.Sprintf(" failure=%s", map[bool]string{false: "EXEC answered with an error (not executed)", true: "EXEC executed, connection dropped"}[s.failDrop])
 	failID := s.units[s.k].ID
 	hn := s.cl.Node(s.holdNode)
@@ -679,18 +684,19 @@ func trunc200(s string) string {
 func ClusterScenarios(run *harness.Run, o ClusterOptions) {
 	type job struct {
 		key string
-		fn  func(*harness.Run, *Driver, string)
+		idx int
+		fn  func(*harness.Run, *Driver, string, int)
 	}
 	var jobs []job
 	for i := 0; i < o.NOutOfOrder; i++ {
-		jobs = append(jobs, job{fmt.Sprintf("cluster-ooo-%d", i), outOfOrderStop})
+		jobs = append(jobs, job{fmt.Sprintf("cluster-ooo-%d", i), i, outOfOrderStop})
 	}
 	for i := 0; i < o.NInProcess; i++ {
-		jobs = append(jobs, job{fmt.Sprintf("cluster-inproc-%d", i), inProcessRestart})
+		jobs = append(jobs, job{fmt.Sprintf("cluster-inproc-%d", i), i, inProcessRestart})
 	}
 	harness.Parallel(len(jobs), o.Workers, func(i int) {
 		if run.WantCase(jobs[i].key) {
-			jobs[i].fn(run, o.Driver, jobs[i].key)
+			jobs[i].fn(run, o.Driver, jobs[i].key, jobs[i].idx)
 		}
 	})
 }
